@@ -64,6 +64,8 @@ KNOWN_OPS = {
     "fields_before_conditional_inline_fragment": "query Q($c: Boolean!) { me { id created ... on User @include(if: $c) { name } } }",
     "aliased_typename_on_abstract_type": "query Q { node { what: __typename id } actor { t: __typename ... on Bot { id } } }",
     "fields_before_conditional_inline_fragment_on_interface": "query Q($c: Boolean!) { node { id ... on User @skip(if: $c) { name } } }",
+    "object_field_selected_directly_and_in_a_base_fragment": "fragment F on User { best { name } } query Q { me { best { id } ...F } }",
+    "interface_fragment_reaching_a_member_type_only_through_a_spread": "fragment OnBot on Bot { model } fragment OnNode on Node { ...OnBot } query Q { nodes { ...OnNode } }",
 }
 
 
@@ -408,7 +410,9 @@ KNOWN_FAILS = {"inline_fragment_on_other_interface": ["generation"], "directive_
                "class_name_collision": ["conformant-response-accepted"],
                "fields_before_conditional_inline_fragment": ["conformant-response-accepted"],
                "fields_before_conditional_inline_fragment_on_interface": ["conformant-response-accepted"],
-               "aliased_typename_on_abstract_type": ["generation"]}
+               "aliased_typename_on_abstract_type": ["generation"],
+               "interface_fragment_reaching_a_member_type_only_through_a_spread": ["serialises-back-to-the-response"],
+               "object_field_selected_directly_and_in_a_base_fragment": ["serialises-back-to-the-response"]}
 
 
 def is_known_case(rep):
